@@ -89,6 +89,13 @@ func (m ClientState) Initialize(
 	store sdk.KVStore,
 	state exported.ConsensusState,
 ) error {
+	if _, ok := state.(*ConsensusState); !ok {
+		return sdkerrors.Wrapf(
+			clienttypes.ErrInvalidConsensus,
+			"invalid consensus state. expected type: %T, got: %T",
+			&ConsensusState{}, state,
+		)
+	}
 	if m.Header.Height.RevisionHeight%m.Epoch != 0 {
 		return sdkerrors.Wrap(ErrInvalidGenesisBlock, "header")
 	}
@@ -118,6 +125,13 @@ func (m ClientState) UpgradeState(
 	store sdk.KVStore,
 	state exported.ConsensusState,
 ) error {
+	if _, ok := state.(*ConsensusState); !ok {
+		return sdkerrors.Wrapf(
+			clienttypes.ErrInvalidConsensus,
+			"invalid consensus state. expected type: %T, got: %T",
+			&ConsensusState{}, state,
+		)
+	}
 	if m.Header.Height.RevisionHeight%m.Epoch != 0 {
 		return sdkerrors.Wrap(ErrInvalidGenesisBlock, "header")
 	}
